@@ -270,7 +270,7 @@ class Generator(ABC):
 
             class RecordingUndefined(Undefined):
                 def _verif_record(self, how):
-                    undefined_log.append((generator_key, how, self._undefined_name, repr(self._undefined_obj)[:80]))
+                    undefined_log.append((generator_key, how, self._undefined_name, type(self._undefined_obj).__name__))
 
                 def __str__(self):
                     self._verif_record("print")
